@@ -303,6 +303,64 @@ let replay_aelim ~id (b : itree) (a : itree) (log : Sexp.t list) : unit =
     end
 (* x-aelim end ------------------------------------------------------------------------------------------------- *)
 
+(* x-kprune begin ----------------------------------------------------------------------------------------------
+   pruned composition for K = 4 (two-row predicates, labels 0..3; case kind kcprune).  Deciding: the pruned result is
+   equivalent, for all inputs modulo certified-thin cells, to the unpruned result and to the K-generic model lifting
+   `compose` of the dumped operands; evaluate() on points.  Mirror: Pwl/KPrune.v's kcompose_prune replayed with the
+   logged LP answers keyed by the query polytope, compared with the dumped result up to arena indices. *)
+let replay_kcprune ~id (f : itree) (g : itree) (h1 : itree) (log : Sexp.t list) : unit =
+  let lplog = List.filter_map (function
+      | List (Atom "lp" :: poly :: _ :: st :: _) ->
+        let p = aff_of poly in Some (List.combine p.a_mat p.a_bias, lpans_of st)
+      | _ -> None) log in
+  let fuel arena = nat_of_int (List.length arena + 1) in
+  let af = arena_of f and ah = arena_of h1 in
+  let rt t = nat_of_int (match t.root with Some r -> r | None -> 0) in
+  let arity = (match f.nodes with nd :: _ -> List.length nd.children | [] -> 0) in
+  match kabs (fuel af) af (rt f), kabs (fuel ah) ah (rt h1), ptree_of g with
+  | Some kf, Some kh, Some pg ->
+    let (res, k) = kcompose_prune (oracle_by_rows lplog) tol (nat_of_int arity) kf pg in
+    if ktree_eqb_shape res kh then
+      (if int_of_nat k.k_lp = List.length lplog then bump "kcprune_mirror_agree" else bump "kcprune_mirror_agree_tree_only")
+    else (bump "kcprune_mirror_mismatch";
+          result id "MIRROR" "kcprune-model" "Pwl/KPrune.v's kcompose_prune replayed with the logged LP answers differs from the dumped result");
+    (* statistics: did a node get forwarded?  with arity + 1 the forwarding test created + skipped == K never holds *)
+    let rec ndec = function KU -> 0 | KN (_, leaf, _, _, ch) -> (if leaf then 0 else 1) + List.fold_left (fun a c -> a + ndec c) 0 ch in
+    let (res', _) = kcompose_prune (oracle_by_rows lplog) tol (nat_of_int (arity + 1)) kf pg in
+    if ndec res <> ndec res' then bump "kcprune_forwarded"
+  | _ -> bump "kcprune_mirror_not_a_tree"
+let check_kcprune ~id sf sg s0 s1 (log : Sexp.t list) (pts : Sexp.t list) : unit =
+  bump "kcprune";
+  log_stats log;
+  let f = itree_of sf and g = itree_of sg in
+  let n = f.in_dim in
+  match s0, s1 with
+  | Atom "panic", Atom "panic" -> bump "malformed_both_reject"; result id "OK" "malformed" ""
+  | Atom "panic", _ -> result id "MIRROR" "outcome" "unpruned composition panicked, pruned did not"
+  | _, Atom "panic" -> if mode = "c03" then result id "VIOL" "panic" "pruned composition (K = 4) panicked where the unpruned one succeeds" else result id "OK" "skipped" ""
+  | _, _ ->
+    let h0 = itree_of s0 and h1 = itree_of s1 in
+    if List.length h1.nodes < List.length h0.nodes then (bump "nontrivial"; bump "kcprune_nontrivial");
+    bump_by "nodes_pruned" (List.length h0.nodes - List.length h1.nodes);
+    (match mode with
+     | "c03" ->
+       (match ptree_of h0, ptree_of h1, ptree_of f, ptree_of g with
+        | Some p0, Some p1, Some pf, Some pg ->
+          if ptree_has_u pg || ptree_has_u pf then bump "partial";
+          let rec true_partial = function U -> false | T _ -> false
+                                        | D (p, ch) -> List.exists true_partial ch ||
+                                                       (let k = 1 lsl (List.length p.a_mat) in
+                                                        List.exists (fun c -> c = U) (List.filteri (fun i _ -> i < k) ch)) in
+          if true_partial pg then bump "kcprune_arg_partial";
+          (try replay_kcprune ~id f g h1 log with Nonfinite -> bump "kcprune_mirror_nonfinite");
+          let ok1 = equiv_mod_thin ~id ~tag:"kcompose-prune-preserves" n p1 p0 in
+          let ok2 = equiv_mod_thin ~id ~tag:"kcompose-prune-law" n p1 (compose pf pg) in
+          let ok3 = points_check ~id ~tag:"evaluate" p1 pts in
+          if ok1 && ok2 && ok3 then result id "OK" "kcprune" ""
+        | _ -> result id "VIOL" "abs" "an arena is not a tree")
+     | _ -> result id "OK" "skipped" "")
+(* x-kprune end ------------------------------------------------------------------------------------------------ *)
+
 let check (case : Sexp.t) : unit =
   match case with
   | List [Atom "case"; Atom id; Atom "elim"; Atom gen; sb; Atom oc; sa; counter; List (Atom "log" :: log); sa2; counter2; List (Atom "pts" :: pts)] ->
@@ -388,6 +446,9 @@ let check (case : Sexp.t) : unit =
            | _ -> result id "VIOL" "abs" "an arena is not a tree")
         | "c05" -> count_states h1; if cache_ok ~id ~tag:"cache" h1 then result id "OK" "cache" ""
         | _ -> result id "OK" "skipped" ""))
+  (* x-kprune: pruned composition of AffTree<4> operands *)
+  | List [Atom "case"; Atom id; Atom "kcprune"; sf; sg; s0; s1; List (Atom "log" :: log); List (Atom "pts" :: pts)] ->
+    check_kcprune ~id sf sg s0 s1 log pts
   | List [Atom "case"; Atom id; Atom "fault"; Atom op; sb; List (Atom "plan" :: plan); sref; sff; sres; List (Atom "log" :: log)] ->
     bump ("fault_" ^ op);
     log_stats log;
